@@ -42,7 +42,6 @@ ASSUMPTIONS = ["pandas Series.sum/prod/max/min/count(skipna) on one block = sumK
                "float arithmetic is outside the theorems (exact integers in the model)"]
 
 HOWS = ["sum", "prod", "max", "min", "count", "mean"]
-FINDING_MINMAX = "reduce:minmax:skipna=False:empty-partition:nan"
 
 
 def _se_py(se):
@@ -118,7 +117,6 @@ def case_reduce(ctx, inp):
         ctx.eq("pandas kernel vs Lean spec (%s)" % how, spec, _scalar(expected))
     model = ctx.lean(Sym("reduce"), Sym(how), skipna, _se_sexp(se), U.parts_to_sexp(parts))
     d = U.from_parts(s, lens, known=inp.get("known", True))
-    empty_cls = (how in ("max", "min") and not skipna and any(n == 0 for n in lens) and len(lens) > 1)
     try:
         got = getattr(d, how)(split_every=_se_py(se), **kw).compute(scheduler="sync")
     except Exception as e:
@@ -126,6 +124,22 @@ def case_reduce(ctx, inp):
                  observed=f"{type(e).__name__}: {e}"[:300], expected=_scalar(expected))
         return
     g = _scalar(got)
+    if how in ("max", "min"):
+        # function level: Max.chunk / Max.combine on the real partitions (an empty partition contributes NO element)
+        from dask.dataframe.dask_expr._reductions import Max, Min
+        cls = Max if how == "max" else Min
+        b = U.bounds_of(lens)
+        partials = []
+        for i, p in enumerate(parts):
+            pr = cls.chunk(s.iloc[b[i]:b[i + 1]], skipna=skipna)
+            partials.append(pr)
+            ctx.eq("%s.chunk" % cls.__name__, ctx.lean(Sym("mmfn"), Sym("chunk"), Sym(how), skipna, U.cells_to_sexp(p)),
+                   U.series_cells(pr))
+        batch = partials[:3]
+        comb = cls.combine(batch, skipna=skipna, axis=0)
+        ctx.eq("%s.combine" % cls.__name__,
+               ctx.lean(Sym("mmfn"), Sym("combine"), Sym(how), skipna, [U.cells_to_sexp(U.series_cells(x)) for x in batch]),
+               U.series_cells(comb))
     if how == "mean":
         m = model[1:] if model[0] == "ok" else None
         mval = None if (m is None or m[0] is None or m[1] == 0) else m[0] / m[1]
@@ -138,10 +152,7 @@ def case_reduce(ctx, inp):
         ctx.eq("Series.%s over the tree" % how, model, [Sym("ok"), g])
         same = g == _scalar(expected)
     if not same:
-        sig = None
-        if empty_cls and g is None and _scalar(expected) is not None:
-            sig = FINDING_MINMAX
-        ctx.fail(f"Series.{how}(skipna={skipna}, split_every={se}) differs from pandas", sig=sig, observed=g,
+        ctx.fail(f"Series.{how}(skipna={skipna}, split_every={se}) differs from pandas", observed=g,
                  expected=_scalar(expected))
     if any(n == 0 for n in lens):
         ctx.branch("reduce-empty-partition")
@@ -154,6 +165,135 @@ def case_reduce(ctx, inp):
             ctx.branch("reduce-tree-two-combine-levels")
     if not skipna and None in cells:
         ctx.branch("reduce-noskip-nan")
+
+
+# ------------------------------------------------------------------------------------------------
+# reductions with non-scalar partial results: idxmax/idxmin, any/all, value_counts, nlargest/nsmallest
+# ------------------------------------------------------------------------------------------------
+
+def _vc_canon(t):
+    """value-count table -> sorted list of [key or None, count]"""
+    return sorted(([None if (k is None or k == "none") else int(k), int(n)] for k, n in t), key=lambda e: (e[0] is None, e[0] or 0))
+
+
+def _vc_of_series(vc):
+    import math as _m
+    out = []
+    for k, n in vc.items():
+        key = None if (k is None or (isinstance(k, float) and _m.isnan(k))) else int(k)
+        out.append([key, int(n)])
+    return _vc_canon(out)
+
+
+def _idx_rows(df):
+    """rows of an idxmaxmin partial frame as [[idx, value]…]"""
+    return [[int(i), int(v)] for i, v in zip(df["idx"].tolist(), df["value"].tolist())]
+
+
+def case_reduce2(ctx, inp):
+    import numpy as np
+    import pandas as pd
+    from dask.dataframe import methods
+    from dask.dataframe.core import idxmaxmin_agg, idxmaxmin_chunk, idxmaxmin_combine
+    how, cells, lens, se = inp["how"], inp["cells"], inp["lens"], inp["se"]
+    parts = U.split(cells, lens)
+    b = U.bounds_of(lens)
+    kpy = {"none": 8, "false": 10 ** 9}.get(se, se)
+
+    def run(f):
+        try:
+            return ["ok", f()]
+        except ValueError as e:
+            return ["valueerror", str(e)[:80]]
+
+    if how in ("idxmax", "idxmin"):
+        s = U.mk_series(cells, "float64")
+        d = U.from_parts(s, lens, known=inp.get("known", True))
+        spec = ctx.lean(Sym("reduce2spec"), Sym(how), U.cells_to_sexp(cells))
+        exp = run(lambda: int(getattr(s, how)()))
+        ctx.eq("pandas %s vs Lean spec" % how, spec, exp[1] if exp[0] == "ok" else Sym("valueerror"))
+        model = ctx.lean(Sym("reduce2"), Sym(how), _se_sexp(se), U.parts_to_sexp(parts))
+        got = run(lambda: int(getattr(d, how)(split_every=_se_py(se)).compute(scheduler="sync")))
+        ctx.eq("Series.%s over the tree" % how, model, [Sym("ok"), got[1]] if got[0] == "ok" else [Sym("valueerror")])
+        if got[0] != exp[0] or (got[0] == "ok" and got[1] != exp[1]):
+            ctx.fail(f"Series.{how}(split_every={se}) differs from pandas", observed=got, expected=exp)
+        # function level: chunk / combine / agg on the real partial frames
+        chunks = []
+        for i, p in enumerate(parts):
+            fr = idxmaxmin_chunk(s.iloc[b[i]:b[i + 1]], fn=how, skipna=True)
+            chunks.append(fr)
+            ctx.eq("idxmaxmin_chunk", ctx.lean(Sym("idxfn"), Sym("chunk"), Sym(how), b[i], U.cells_to_sexp(p)), _idx_rows(fr))
+        batch = chunks[:max(2, min(len(chunks), 4))]
+        if batch:
+            cat = pd.concat(batch)
+            comb = idxmaxmin_combine(cat, fn=how, skipna=True)
+            rows = [_idx_rows(c) for c in batch]
+            ctx.eq("idxmaxmin_combine", ctx.lean(Sym("idxfn"), Sym("combine"), Sym(how), rows), _idx_rows(comb))
+            agg = run(lambda: int(idxmaxmin_agg(cat, fn=how, skipna=True, scalar=True)))
+            ctx.eq("idxmaxmin_agg", ctx.lean(Sym("idxfn"), Sym("agg"), Sym(how), rows),
+                   agg[1] if agg[0] == "ok" else Sym("valueerror"))
+        ctx.branch("reduce2-" + how)
+        if exp[0] != "ok":
+            ctx.branch("reduce2-idx-valueerror")
+        if len(set(c for c in cells if c is not None)) < len([c for c in cells if c is not None]):
+            ctx.branch("reduce2-idx-ties")
+    elif how in ("any", "all"):
+        bools = [bool(c) for c in cells]
+        s = pd.Series(bools, dtype="bool", index=range(len(bools)), name="x")
+        d = U.from_parts(s, lens, known=inp.get("known", True))
+        spec = ctx.lean(Sym("reduce2spec"), Sym(how), bools)
+        exp = bool(getattr(s, how)())
+        ctx.eq("pandas %s vs Lean spec" % how, spec, exp)
+        model = ctx.lean(Sym("reduce2"), Sym(how), _se_sexp(se), [[bool(c) for c in p] for p in parts])
+        got = bool(getattr(d, how)(split_every=_se_py(se)).compute(scheduler="sync"))
+        ctx.eq("Series.%s over the tree" % how, model, [Sym("ok"), got])
+        if got != exp:
+            ctx.fail(f"Series.{how}(split_every={se}) differs from pandas", observed=got, expected=exp)
+        ctx.branch("reduce2-" + how)
+    elif how == "value_counts":
+        dropna = inp["dropna"]
+        s = U.mk_series(cells, "float64")
+        d = U.from_parts(s, lens, known=inp.get("known", True))
+        spec = ctx.lean(Sym("reduce2spec"), Sym(how), U.cells_to_sexp(cells), dropna)
+        exp = _vc_of_series(s.value_counts(dropna=dropna))
+        ctx.eq("pandas value_counts vs Lean spec", _vc_canon(spec), exp)
+        model = ctx.lean(Sym("reduce2"), Sym(how), _se_sexp(se), U.parts_to_sexp(parts), dropna)
+        got = _vc_of_series(d.value_counts(dropna=dropna, split_every=_se_py(se)).compute(scheduler="sync"))
+        ctx.eq("Series.value_counts over the tree", _vc_canon(model[1]) if model[0] == "ok" else model, got)
+        if got != exp:
+            ctx.fail(f"Series.value_counts(dropna={dropna}, split_every={se}) differs from pandas", observed=got, expected=exp)
+        chunks = [s.iloc[b[i]:b[i + 1]].value_counts(dropna=dropna) for i in range(len(lens))]
+        for p, c in zip(parts, chunks):
+            ctx.eq("M.value_counts (chunk)", _vc_canon(ctx.lean(Sym("vcfn"), Sym("chunk"), dropna, U.cells_to_sexp(p))), _vc_of_series(c))
+        batch = [c for c in chunks[:4]]
+        if batch:
+            comb = methods.value_counts_combine(pd.concat(batch), dropna=dropna)
+            rows = [[[Sym("none") if k is None else k, n] for k, n in _vc_of_series(c)] for c in batch]
+            ctx.eq("value_counts_combine", _vc_canon(ctx.lean(Sym("vcfn"), Sym("combine"), dropna, rows)), _vc_of_series(comb))
+        ctx.branch("reduce2-value_counts")
+        if not dropna and None in cells:
+            ctx.branch("reduce2-value_counts-nan-key")
+    else:  # nlargest / nsmallest
+        n = inp["n"]
+        vals = [0 if c is None else c for c in cells]
+        s = pd.Series(vals, dtype="int64", index=range(len(vals)), name="x")
+        d = U.from_parts(s, lens, known=inp.get("known", True))
+        spec = ctx.lean(Sym("reduce2spec"), Sym(how), vals, n)
+        exp = [int(v) for v in getattr(s, how)(n).tolist()]
+        ctx.eq("pandas %s vs Lean spec" % how, spec, exp)
+        model = ctx.lean(Sym("reduce2"), Sym(how), _se_sexp(se), U.split(vals, lens), n)
+        r = getattr(d, how)(n, split_every=_se_py(se)).compute(scheduler="sync")
+        got = [int(v) for v in r.tolist()]
+        ctx.eq("Series.%s over the tree" % how, model, [Sym("ok"), got])
+        if got != exp:
+            ctx.fail(f"Series.{how}({n}, split_every={se}) differs from pandas", observed=got, expected=exp)
+        ctx.branch("reduce2-" + how)
+        if n < len(vals):
+            ctx.branch("reduce2-topk-truncates")
+    if any(x == 0 for x in lens):
+        ctx.branch("reduce2-empty-partition")
+    if len(lens) > kpy:
+        ctx.branch("reduce2-tree-combine-level")
 
 
 # ------------------------------------------------------------------------------------------------
@@ -299,21 +439,13 @@ def case_api(ctx, inp):
             pass
         _close(got, exp, dtypes=False)
     except AssertionError as e:
-        sig = None
-        empty = any(n == 0 for n in inp["lens"]) and len(inp["lens"]) > 1
-        if k in ("max", "min") and not p.get("skipna", True) and empty and (inp.get("column") or p.get("axis", 0) == 0):
-            sig = FINDING_MINMAX
-        ctx.fail(f"{k}({p}, split_every={inp['se']}) differs from pandas", sig=sig, observed=str(e)[:300])
+        ctx.fail(f"{k}({p}, split_every={inp['se']}) differs from pandas", observed=str(e)[:300])
         return
     # values agree; now the dtypes / scalar kinds (statement: "computed scalars/series vs pandas")
     try:
         _close(got, exp, dtypes=True)
     except AssertionError as e:
-        empty = any(n == 0 for n in inp["lens"]) and len(inp["lens"]) > 1
-        sig = None
-        if k in ("max", "min") and empty and (inp.get("column") or p.get("axis", 0) == 0):
-            sig = "api:int-minmax:empty-partition:float64"
-        ctx.fail(f"{k}({p}, split_every={inp['se']}): values equal pandas but dtypes differ", sig=sig, observed=str(e)[:300])
+        ctx.fail(f"{k}({p}, split_every={inp['se']}): values equal pandas but dtypes differ", observed=str(e)[:300])
         return
     ctx.branch("api-" + k)
     if any(n == 0 for n in inp["lens"]):
@@ -322,7 +454,7 @@ def case_api(ctx, inp):
         ctx.branch("api-axis1")
 
 
-CASES = {"shape": case_shape, "reduce": case_reduce, "api": case_api}
+CASES = {"shape": case_shape, "reduce": case_reduce, "reduce2": case_reduce2, "api": case_api}
 
 
 # ------------------------------------------------------------------------------------------------
@@ -383,6 +515,19 @@ def gen_value_counts(rng):
     return inp
 
 
+def gen_reduce2(rng):
+    how = rng.choice(["idxmax", "idxmin", "any", "all", "value_counts", "value_counts", "nlargest", "nsmallest"])
+    n = rng.randint(0, 14) if how not in ("idxmax", "idxmin") or rng.random() < 0.9 else 0
+    if how in ("any", "all"):
+        p = rng.choice([0.1, 0.5, 0.9])
+        cells = [1 if rng.random() < p else 0 for _ in range(n)]
+    else:
+        cells = U.gen_cells(rng, n, lo=-2, hi=3)
+    lens = U.gen_lens(rng, n, 5) if rng.random() < 0.6 else U.gen_lens(rng, n, 12)
+    return {"how": how, "cells": cells, "lens": lens, "se": rng.choice(SES), "known": rng.random() < 0.7,
+            "dropna": rng.random() < 0.5, "n": rng.randint(0, 5)}
+
+
 def generate(ctx):
     rng = ctx.rng
     for _ in range(ctx.n(30, 400)):
@@ -406,6 +551,8 @@ def generate(ctx):
         lens = U.gen_lens(rng, n, 5) if t < 0.6 else U.gen_lens(rng, n, 12)
         yield "reduce", {"cells": cells, "lens": lens, "how": how, "skipna": rng.random() < 0.7,
                          "se": rng.choice(SES), "dtype": dtype, "known": rng.random() < 0.7}
+    for _ in range(ctx.n(110, 2500)):
+        yield "reduce2", gen_reduce2(rng)
     for _ in range(ctx.n(230, 4000)):
         yield "api", gen_api(rng)
 
